@@ -1250,6 +1250,45 @@ static void runVario(const VarioC& c, Ctx& ctx)
           if (!same(gg1[l], gg2[l], z2)) { ctx.fail(V + ":" + MK + ":gg", CN + fmt(" dir %d var (%d,%d) lag %d: value %.15g with the masked Db, %.15g with the reduced Db", idir, iv, jv, (int)l, gg1[l], gg2[l])); return; }
         }
       }
+  // "a value undefined in one variable only = removing just that variable at that sample": the simple variogram of variable iv
+  // computed among several variables equals the one computed on a Db that carries variable iv alone (calculations whose
+  // (iv,iv) term only reads variable iv; the general algorithm)
+  bool perVar = nv >= 2 && !c.bySample && (c.calc == 0 || c.calc == 2 || c.calc == 3 || c.calc == 4 || c.calc == 7);
+  bool hetero = false;
+  if (perVar)
+  {
+    for (int i = 0; i < d.n(); i++) hetero = hetero || (d.anyNA(i) && !d.allNA(i));
+    for (int iv = 0; iv < nv; iv++)
+    {
+      DbC dm = d;
+      dm.nvar = 1;
+      dm.z.clear();
+      for (int i = 0; i < d.n(); i++) dm.z.push_back(d.zv(i, iv));
+      std::unique_ptr<Db> db3 = buildDb(dm);
+      std::unique_ptr<Vario> v3 = computeVario(c, db3.get(), ctx);
+      if (!v3) { ctx.label("alone:refused"); continue; }
+      for (int idir = 0; idir < v1->getDirectionNumber(); idir++)
+      {
+        VectorDouble sw1 = v1->getSwVec(idir, iv, iv, false), sw3 = v3->getSwVec(idir, 0, 0, false);
+        VectorDouble gg1 = v1->getGgVec(idir, iv, iv, false, false, false), gg3 = v3->getGgVec(idir, 0, 0, false, false, false);
+        VectorDouble hh1 = v1->getHhVec(idir, iv, iv, false), hh3 = v3->getHhVec(idir, 0, 0, false);
+        if (sw1.size() != sw3.size()) { ctx.fail(V + ":alone:sizes", "numbers of lags differ"); return; }
+        for (size_t l = 0; l < sw1.size(); l++)
+        {
+          double swScale = std::max(std::fabs(sw1[l]), std::fabs(sw3[l]));
+          bool ok = (d.w.empty() ? (sw1[l] == sw3[l]) : same(sw1[l], sw3[l], swScale)) && same(hh1[l], hh3[l], c.dlag * c.nlag) && same(gg1[l], gg3[l], z2);
+          if (!ok)
+          {
+            ctx.fail(V + ":alone:" + (hetero ? "heterotopic" : "isotopic"),
+                     CN + fmt(" dir %d lag %d variable %d: sw/hh/gg = %.15g / %.15g / %.15g among %d variables, %.15g / %.15g / %.15g when the Db carries this variable alone",
+                              idir, (int)l, iv, sw1[l], hh1[l], gg1[l], nv, sw3[l], hh3[l], gg3[l]));
+            return;
+          }
+        }
+      }
+    }
+    if (hetero) ctx.label("alone:heterotopic-compared");
+  }
   // global statistics stored in the variogram
   for (int iv = 0; iv < nv; iv++)
   {
@@ -1266,7 +1305,7 @@ static void runVario(const VarioC& c, Ctx& ctx)
     for (int j : keep)
       if (vfgeo::euclid(d.ndim, d.pts.p(i), d.pts.p(j)) < hmax) { matter = true; break; }
   }
-  ctx.nontrivial(npairs > 0 && (int)keep.size() < d.n() && matter);
+  ctx.nontrivial(npairs > 0 && (((int)keep.size() < d.n() && matter) || (perVar && hetero)));
 }
 VERIF_SUB(vario, VarioC, genVario, runVario);
 
